@@ -65,10 +65,16 @@ Init ==
 Fixed == UNCHANGED <<len, salloc, driver, bs, reflink, kcopy>>
 
 (***************************************************************************)
-(* CopyHandle::new: File::create (truncate) then allocate_file (ftruncate) *)
+(* CopyHandle::new: open without truncation (+ identity test on the open   *)
+(* descriptor), set_len(0), then allocate_file (ftruncate to the length)   *)
 (***************************************************************************)
 Create ==
   /\ pc = "create"
+  /\ pc' = "truncate"
+  /\ Fixed /\ UNCHANGED <<dst, dalloc, pos, segEnd, cur, want, exts, jobs, result, clones, cloneAns, dataOps, mapped>>
+
+Truncate ==
+  /\ pc = "truncate"
   /\ IF "NoTruncate" \in Deviations THEN UNCHANGED <<dst, dalloc>> ELSE dst' = <<>> /\ dalloc' = {}
   /\ pc' = "allocate"
   /\ Fixed /\ UNCHANGED <<pos, segEnd, cur, want, exts, jobs, result, clones, cloneAns, dataOps, mapped>>
@@ -230,7 +236,7 @@ Finalise ==
 
 Done == pc = "end" /\ UNCHANGED vars
 
-Main == Create \/ Allocate \/ Clone \/ Bytes0 \/ Seek \/ CopyBytes \/ Fiemap \/ Whole \/ Queue \/ Drain \/ Finalise
+Main == Create \/ Truncate \/ Allocate \/ Clone \/ Bytes0 \/ Seek \/ CopyBytes \/ Fiemap \/ Whole \/ Queue \/ Drain \/ Finalise
 Next == Main \/ BlockStep \/ BlockFail \/ Done
 Spec == Init /\ [][Next]_vars /\ WF_vars(Main) /\ WF_vars(BlockStep)
 
@@ -243,7 +249,7 @@ Exact == result = "ok" => dst = Src
 \* merge_extents may bridge between two extents
 GapCells == { i \in Cells : i \notin salloc /\ (i - 1) \in salloc /\ (i + 1) \in salloc }
 HolesStayHoles ==
-  (pc \notin {"create", "allocate"} /\ mapped # "no" /\ "NoTruncate" \notin Deviations)
+  (pc \notin {"create", "truncate", "allocate"} /\ mapped # "no" /\ "NoTruncate" \notin Deviations)
      => dalloc \subseteq (salloc \cup (IF driver = "parblock" THEN GapCells ELSE {}))
 \* C15
 NeverClones     == reflink = "never" => clones = 0
